@@ -73,6 +73,9 @@ extern "C" {
 #define CUCKOO_MAPPED_TYPE int
 #include <libcuckoo-c/cuckoo_table_template.cc>
 
+// the guarded synchronisation hooks are compiled in (LIBCUCKOO_VERIF) but not used by this harness
+extern "C" void libcuckoo_verif_hook(int, const void *, unsigned long, unsigned long) {}
+
 #ifdef LIBCUCKOO_VERIF_MAX_NUM_LOCKS
 static const uint64_t kHarnessMaxLocks = LIBCUCKOO_VERIF_MAX_NUM_LOCKS;
 #else
